@@ -268,8 +268,10 @@ func pbErrName(err error) string {
 
 func unmarshalLoop(r io.Reader, maxCalls int) string {
 	outs := []string{}
+	// one destination reused for every frame, as a read loop would, and not empty to begin with:
+	// a decoded message must not keep anything of what the destination held before
+	m := &rawMsg{Data: []byte("stale-junk")}
 	for i := 0; i < maxCalls; i++ {
-		m := &rawMsg{}
 		o, ok := "PANIC", false
 		func() {
 			defer func() { recover() }()
@@ -341,7 +343,7 @@ func init() {
 		if err != nil {
 			return "marshal:" + pbErrName(err)
 		}
-		out := mkMsg(a[0], parseVer(a[1]), nil)
+		out := mkMsg(a[0], parseVer(a[1]), []byte("stale")) // a non-empty destination
 		n2, ver, err := pbcmpl.Unmarshal(&scriptR{data: buf.Bytes(), chunk: 2}, out)
 		eq := false
 		switch x := msg.(type) {
